@@ -245,12 +245,14 @@ func (s *storage) appendEntry(e *entry) {
 		panic(opError(err, "Log.Append"))
 	}
 	s.lastLogIndex, s.lastLogTerm = e.index, e.term
+	verifPoint("appendEntry", filepath.Dir(s.snaps.dir), e)
 }
 
 func (s *storage) commitLog(n uint64) {
 	if err := s.log.CommitN(n); err != nil {
 		panic(opError(err, "Log.CommitN(%d)", n))
 	}
+	verifPoint("commitLog", filepath.Dir(s.snaps.dir), n)
 }
 
 // never called with invalid index
@@ -259,6 +261,7 @@ func (s *storage) removeLTE(index uint64) error {
 	if err := s.log.RemoveLTE(index); err != nil {
 		return opError(err, "Log.RemoveLTE(%d)", index)
 	}
+	verifPoint("compactLog", filepath.Dir(s.snaps.dir))
 	return nil
 }
 
@@ -284,6 +287,7 @@ func (s *storage) clearLog() error {
 	if err := s.log.Reset(s.snaps.index); err != nil {
 		return opError(err, "Log.Reset(%d)", s.snaps.index)
 	}
+	verifPoint("clearLog", filepath.Dir(s.snaps.dir))
 	assert(s.log.LastIndex() == s.snaps.index)
 	assert(s.log.PrevIndex() == s.snaps.index)
 	s.lastLogIndex, s.lastLogTerm = s.snaps.index, s.snaps.term
@@ -296,6 +300,7 @@ func (s *storage) removeGTE(index, prevTerm uint64) {
 	if err := s.log.RemoveGTE(index); err != nil {
 		panic(opError(err, "Log.RemoveGTE(%d)", index))
 	}
+	verifPoint("removeGTE", filepath.Dir(s.snaps.dir))
 	assert(s.log.LastIndex() == index-1)
 	s.lastLogIndex, s.lastLogTerm = index-1, prevTerm
 }
